@@ -9,6 +9,8 @@
 //! validation codes are equal.
 //!
 //! Mutants caught (tools/mutant_run.sh H <diff> C40 quick):
+//!   /verif/mutants/C40-async-verify-claim-unadjusted-settings.diff (independently seeded, first MISSED; led to the repository
+//!       fixture leg) -> `codes-differ enum=fixture op=read ctx=* file=C.jpg|CA.jpg|XCA.jpg|... async=undisturbed`
 //!   /verif/mutants/C40-async-skips-verify-after-sign.diff -> `outcome-differs ...` / `error-kind-differs ...` on the faulty-signer cases (sub-product G)
 
 use crate::{c03, c15, c22::first_diff, c39};
@@ -250,6 +252,97 @@ fn c39_flow(c: &c39::Case, seeds: &[c39::Seed], fl: Flavor) -> Obs {
 }
 
 // ------------------------------------------------------------------------------------------------------------
+// repository fixtures: subjects that carry what generated assets lack (RFC 3161 time stamps, claim v1, old ingredient
+// assertions, CAWG data, ...)
+// ------------------------------------------------------------------------------------------------------------
+
+#[derive(Clone, Debug)]
+pub struct FxCase {
+    pub file: String,
+    /// "kit" = kit settings; "default" = Context::new() with only network fetches switched off
+    pub ctx: String,
+    /// "read" | "ingredient"
+    pub op: String,
+}
+
+pub fn fixture_files() -> Vec<String> {
+    let exts = ["jpg", "jpeg", "png", "webp", "svg", "mp4", "avif", "heic", "tif", "tiff", "wav", "mp3", "gif", "c2pa", "pdf", "m4a", "dng"];
+    let mut v = vec![];
+    if let Ok(rd) = std::fs::read_dir(sdk::FIXTURES) {
+        for e in rd.flatten() {
+            let p = e.path();
+            let ext = p.extension().and_then(|x| x.to_str()).unwrap_or("").to_lowercase();
+            let len = e.metadata().map(|m| m.len()).unwrap_or(0);
+            if p.is_file() && exts.contains(&ext.as_str()) && len > 0 && len <= 200 * 1024 {
+                if let Some(n) = p.file_name().and_then(|x| x.to_str()) {
+                    v.push(n.to_string());
+                }
+            }
+        }
+    }
+    v.sort();
+    v
+}
+
+fn fx_ctx(kind: &str) -> c2pa::Context {
+    if kind == "kit" {
+        sdk::ctx()
+    } else {
+        c2pa::Context::new()
+            .with_settings(r#"{"verify":{"ocsp_fetch":false,"remote_manifest_fetch":false}}"#)
+            .unwrap_or_else(|e| kit::ev::machinery(format!("C40: settings: {e:?}")))
+    }
+}
+
+fn fx_flow(c: &FxCase, fl: Flavor) -> Obs {
+    let data = sdk::fixture(&c.file);
+    let fmt = c2pa::format_from_path(&c.file).unwrap_or_else(|| "application/octet-stream".to_string());
+    let sync = fl == Flavor::Sync;
+    let r = par::guard(|| {
+        block_on(async {
+            if c.op == "read" {
+                let rd = if sync {
+                    Reader::from_context(fx_ctx(&c.ctx)).with_stream(&fmt, Cursor::new(&data))
+                } else {
+                    Reader::from_context(fx_ctx(&c.ctx)).with_stream_async(&fmt, Cursor::new(&data)).await
+                };
+                match rd {
+                    Ok(rd) => Ok(view(&rd)),
+                    Err(e) => Err(format!("read:{}", kind(&e))),
+                }
+            } else {
+                let mut b = Builder::from_context(fx_ctx(&c.ctx));
+                let j = r#"{"title":"fx","relationship":"componentOf"}"#;
+                let ing = if sync {
+                    b.add_ingredient_from_stream(j, &fmt, &mut Cursor::new(&data))
+                } else {
+                    b.add_ingredient_from_stream_async(j, &fmt, &mut Cursor::new(&data)).await
+                };
+                match ing {
+                    Ok(i) => {
+                        let mut v = json!({"json": {"active_manifest": i.active_manifest(), "ingredient": serde_json::to_value(&*i).unwrap_or(Value::Null)}});
+                        defs::strip_hashes(&mut v);
+                        let mut codes = vec![];
+                        if let Some(vr) = i.validation_results() {
+                            let x = serde_json::to_value(vr).unwrap_or(Value::Null);
+                            for (bin, list) in x["activeManifest"].as_object().into_iter().flatten() {
+                                for s in list.as_array().into_iter().flatten() {
+                                    codes.push(format!("{bin}:{}", s["code"].as_str().unwrap_or("")));
+                                }
+                            }
+                        }
+                        codes.sort();
+                        Ok((defs::rename_ids(&v), codes))
+                    }
+                    Err(e) => Err(format!("add:{}", kind(&e))),
+                }
+            }
+        })
+    });
+    Obs { out: r.unwrap_or_else(|p| Err(format!("PANIC {p}"))), points: 0, pended: 0 }
+}
+
+// ------------------------------------------------------------------------------------------------------------
 // driver
 // ------------------------------------------------------------------------------------------------------------
 
@@ -258,21 +351,23 @@ pub enum AnyCase {
     C03(c03::Case),
     C15(c15::Case),
     C39(c39::Case),
+    Fx(FxCase),
 }
 impl AnyCase {
     fn to_json(&self, fl: Flavor) -> Value {
-        let (e, c) = match self { AnyCase::C03(c) => ("C03", c.to_json()), AnyCase::C15(c) => ("C15", c.to_json()), AnyCase::C39(c) => ("C39", c.to_json()) };
+        let (e, c) = match self { AnyCase::C03(c) => ("C03", c.to_json()), AnyCase::C15(c) => ("C15", c.to_json()), AnyCase::C39(c) => ("C39", c.to_json()), AnyCase::Fx(c) => ("fixture", json!({"file": c.file, "ctx": c.ctx, "op": c.op})) };
         let pend = match fl { Flavor::Async(Some(k)) => json!(k), _ => Value::Null };
         json!({"enumeration": e, "case": c, "pending_at": pend})
     }
     fn id(&self) -> String {
-        match self { AnyCase::C03(c) => format!("C03 {}", c.id()), AnyCase::C15(c) => format!("C15 {}", c.id()), AnyCase::C39(c) => format!("C39 {}", c.id()) }
+        match self { AnyCase::C03(c) => format!("C03 {}", c.id()), AnyCase::C15(c) => format!("C15 {}", c.id()), AnyCase::C39(c) => format!("C39 {}", c.id()), AnyCase::Fx(c) => format!("fixture {} {} ctx={}", c.op, c.file, c.ctx) }
     }
     fn group(&self) -> String {
         match self {
             AnyCase::C03(c) => format!("enum=C03 mode={} v={} c={} trust={} fault={}", c.mode, c.ver, c.compress as u8, c.trust as u8, c.fault),
             AnyCase::C15(c) => format!("enum=C15 kind={} fmt={}", if c.real { "real" } else { "sized" }, c.fmt),
             AnyCase::C39(c) => format!("enum=C39 state={} rel={} mode={}", c.state, c.rel, c.mode),
+            AnyCase::Fx(c) => format!("enum=fixture op={} ctx={} file={}", c.op, c.ctx, c.file),
         }
     }
     fn flow(&self, seeds: &[c39::Seed], fl: Flavor) -> Obs {
@@ -281,6 +376,7 @@ impl AnyCase {
             (AnyCase::C03(c), Flavor::Async(p)) => c03_async(c, p),
             (AnyCase::C15(c), f) => c15_flow(c, f),
             (AnyCase::C39(c), f) => c39_flow(c, seeds, f),
+            (AnyCase::Fx(c), f) => fx_flow(c, f),
         }
     }
 }
@@ -347,6 +443,7 @@ pub fn run(run: &Run, replay: Option<&Value>) {
               non-trivial = distinct (case, k) async executions that reached the signer (k ranges over every await point observed in the undisturbed run) plus the undisturbed async executions.");
     run.assume("equivalent signers: the async signer forwards to the same fixture signer object type; ECDSA/PSS signatures are randomised, reports are compared after kit::canon with the hashes of hashed URIs removed");
     run.assume("sign_embeddable / with_archive have no async twin on this tree; the C15 enumeration goes through data_hashed_placeholder + sign_data_hashed_embeddable(_async), the pair named in the property");
+    run.assume("repository fixtures are read with network fetches (remote manifests, OCSP) switched off in both settings variants; everything else of the 'default' variant is Context::new()");
     run.assume("no resolver futures are exercised (network access is disabled in the kit context), so the only futures that can be Pending are the signer's");
     let thorough = run.tier.is_thorough();
     let seeds = c39::seeds(false);
@@ -354,6 +451,7 @@ pub fn run(run: &Run, replay: Option<&Value>) {
         let case = match c["enumeration"].as_str() {
             Some("C03") => AnyCase::C03(c03::Case::from_json(&c["case"])),
             Some("C15") => AnyCase::C15(c15::Case::from_json(&c["case"])),
+            Some("fixture") => AnyCase::Fx(FxCase { file: c["case"]["file"].as_str().unwrap_or("C.jpg").into(), ctx: c["case"]["ctx"].as_str().unwrap_or("kit").into(), op: c["case"]["op"].as_str().unwrap_or("read").into() }),
             _ => AnyCase::C39(c39::Case::from_json(&c["case"])),
         };
         let pend = c["pending_at"].as_u64().map(|k| k as usize);
@@ -366,6 +464,8 @@ pub fn run(run: &Run, replay: Option<&Value>) {
     }
     // soundness of the comparator: the sync flavour twice must agree with itself on one case of each enumeration
     let probes = vec![
+        AnyCase::Fx(FxCase { file: "CA.jpg".into(), ctx: "default".into(), op: "read".into() }),
+        AnyCase::Fx(FxCase { file: "C.jpg".into(), ctx: "kit".into(), op: "ingredient".into() }),
         AnyCase::C03(c03::Case { def: Def::full(), alg: "es256".into(), ..c03::Case::base("jpeg") }),
         AnyCase::C03(c03::Case { alg: "ps256".into(), mode: "sidecar".into(), ver: 1, ..c03::Case::base("png") }),
         AnyCase::C15(c15::Case { real: true, fmt: "jpeg".into(), n: 1, co: 0, cl: 9, reserve_extra: 0, rich: true, alg: "ed25519".into(), pure: false, legacy: false, widths: vec![] }),
@@ -430,6 +530,16 @@ pub fn run(run: &Run, replay: Option<&Value>) {
         cases.push(AnyCase::C39(c39::Case { seed: s.name.clone(), state: st.into(), rel: rel.into(), mode: mode.into(), parent: "jpeg".into(), def: "minimal".into() })); n39 += 1;
     }}}}
     run.space("C39 quick enumeration: seed asset(13) x state(3) x relationship(3) x mode(3)", n39 as u64, true);
+    let files = fixture_files();
+    if files.len() < 10 || !files.iter().any(|f| f == "C.jpg") {
+        kit::ev::machinery(format!("C40: repository fixtures not found ({} files)", files.len()));
+    }
+    let mut nfx = 0usize;
+    for f in &files { for ctx in ["kit", "default"] { for op in ["read", "ingredient"] {
+        cases.push(AnyCase::Fx(FxCase { file: f.clone(), ctx: ctx.into(), op: op.into() })); nfx += 1;
+    }}}
+    run.space(&format!("repository fixtures <= 200 KB ({} files: time-stamped, claim v1, old ingredient assertions, CAWG, remote references, unsigned, malformed) x settings {{kit, SDK default with network fetches off}} x {{Reader::with_stream vs with_stream_async, add_ingredient_from_stream vs _async}}", files.len()), nfx as u64, true);
+    run.extra("fixtures", json!(files));
     if std::env::var("VERIF_DEBUG").is_ok() {
         eprintln!("C40: setup done at {:.1}s", run.elapsed());
         for e in ["C03", "C15", "C39"] {
